@@ -87,6 +87,19 @@ def check_str(b, ctx):
     r = val(h, 'int(0x%s)' % b.hex())
     if r.get('type') != 'int' or r.get('int') != want:
         raise Violation(dict(kind='bytes', hex=b.hex()), 'inline int(0x%s) gives %r, Bitcoin assigns %d' % (b.hex(), r, want), observed=r, expected=want)
+    # the same string as the operand of an arithmetic operation in a script, every script version, MINIMALDATA on and off: rejected exactly when
+    # minimal encoding is required and the string is not minimal, otherwise computed from the value Bitcoin assigns
+    for sv in (0, 1, 3):
+        for fl in (0, R.F['MINIMALDATA']):
+            g = h.req(kvline('run', script=b'\x8b', stack=[b], flags=fl, sv=sv, mode='step', trace=0, weight=1000000))   # (operand on the initial stack: push-form rules stay out of it)
+            must_fail = bool(fl) and not R.num_minimal(b)
+            if 'final' not in g:
+                raise Violation(dict(kind='bytes', hex=b.hex()), 'script <%s> OP_1ADD could not be run: %r' % (b.hex(), g), observed=g)
+            if must_fail != (not g['ok']):
+                raise Violation(dict(kind='bytes', hex=b.hex()), 'operand %s of OP_1ADD under sigversion %d, MINIMALDATA %s: %s, but minimal encoding is %srequired and the string is %sminimal' % (
+                    b.hex(), sv, 'on' if fl else 'off', 'accepted' if g['ok'] else 'rejected (%s)' % g['err'], '' if fl else 'not ', '' if R.num_minimal(b) else 'not '), observed=[g['ok'], g['err']])
+            if g['ok'] and g['final']['st'] != [enc_hex(want + 1)]:
+                raise Violation(dict(kind='bytes', hex=b.hex()), 'operand %s of OP_1ADD decodes to a value whose successor is %r, Bitcoin assigns %d' % (b.hex(), g['final']['st'], want), observed=g['final']['st'], expected=enc_hex(want + 1))
     # harness-level codec probe incl. the minimal-encoding verdict
     s = h.req(kvline('scriptnum', bytes=b, max=4))
     if s.get('dec') != want or bool(s.get('min_ok')) != R.num_minimal(b):
